@@ -9,6 +9,7 @@ import (
 	"net/url"
 	"runtime"
 	"sync"
+	"time"
 
 	"google.golang.org/grpc"
 	"google.golang.org/protobuf/encoding/protowire"
@@ -304,7 +305,161 @@ func init() {
 			goChecked(o, "reused_destination_client_"+t.name, id, ok, d)
 			t.stop()
 		}
+		// a receiver that is behind when the call's context ends never sees a clean end of stream short of
+		// the complete sequence
+		cancelledBehind(o, &id)
+		// the same bytes delivered in small pieces (a re-chunking proxy, a slow connection) decode to the same messages
+		fragmentedDelivery(o, r, &id)
 		o.Shard = 30
+	}
+}
+
+// cancelledBehind: a server stream of n messages; the client receives k, the context ends (cancel or deadline)
+// while further responses are already on their way, and the client goes on receiving: it gets more messages of
+// the sequence, in order, or a status error -- never io.EOF before all n
+func cancelledBehind(o *hx.Out, id *int) {
+	const n = 5
+	svc := &hx.Svc{Stream: func(kind string, ss grpc.ServerStream) error {
+		ss.RecvMsg(&hx.Msg{})
+		for i := 0; i < n; i++ {
+			if err := ss.SendMsg(&hx.Msg{Count: int32(i)}); err != nil {
+				return err
+			}
+		}
+		return nil
+	}}
+	for _, t := range bothTransports(svc) {
+		for _, deadline := range []bool{false, true} {
+			for k := 0; k <= 2; k++ {
+				ctx, cancel := context.WithCancel(context.Background())
+				if deadline {
+					cancel()
+					ctx, cancel = context.WithTimeout(context.Background(), 150*time.Millisecond)
+				}
+				got, fin := 0, error(nil)
+				inOrder := true
+				cs, err := t.ch.NewStream(ctx, hx.StreamDescOf("SS"), "/verif.Svc/SS")
+				if err == nil {
+					cs.SendMsg(&hx.Msg{})
+					cs.CloseSend()
+					recv := func() bool {
+						m := &hx.Msg{}
+						if fin = cs.RecvMsg(m); fin != nil {
+							return false
+						}
+						inOrder = inOrder && int(m.Count) == got
+						got++
+						return true
+					}
+					for i := 0; i < k && recv(); i++ {
+					}
+					time.Sleep(30 * time.Millisecond) // the rest of the reply arrives; the receiver is behind
+					if deadline {
+						<-ctx.Done()
+					} else {
+						cancel()
+					}
+					time.Sleep(30 * time.Millisecond)
+					for fin == nil && recv() {
+					}
+					runtime.KeepAlive(cs)
+				} else {
+					fin = err
+				}
+				cancel()
+				ok := inOrder && (fin != io.EOF || got == n)
+				*id++
+				d := map[string]interface{}{"transport": t.name, "kind": "SS", "handler_sends": n, "received_before_the_context_ended": k, "deadline": deadline,
+					"received_in_all": got, "in_order": inOrder, "final": fmt.Sprint(fin)}
+				if !ok {
+					o.Violate("a stream whose context ended while the receiver was behind ended cleanly (io.EOF) short of the complete sequence", d, got, n)
+				}
+				goChecked(o, "cancelled_behind_"+t.name, *id, ok, d)
+			}
+		}
+		t.stop()
+	}
+}
+
+// pieces makes every Read return at most n bytes
+type pieces struct {
+	r io.ReadCloser
+	n int
+}
+
+func (p pieces) Read(b []byte) (int, error) {
+	if len(b) > p.n {
+		b = b[:p.n]
+	}
+	return p.r.Read(b)
+}
+func (p pieces) Close() error { return p.r.Close() }
+
+type piecesRT struct {
+	inner http.RoundTripper
+	n     int
+}
+
+func (p piecesRT) RoundTrip(rq *http.Request) (*http.Response, error) {
+	resp, err := p.inner.RoundTrip(rq)
+	if err == nil {
+		resp.Body = pieces{resp.Body, p.n}
+	}
+	return resp, err
+}
+
+func fragmentedDelivery(o *hx.Out, r *hx.Rand, id *int) {
+	hs := httpgrpc.NewServer()
+	hs.RegisterService(hx.Desc(hx.SvcName), echoSvc())
+	for _, n := range []int{1, 3, 7} {
+		ts := httptest.NewServer(http.HandlerFunc(func(w http.ResponseWriter, rq *http.Request) {
+			rq.Body = pieces{rq.Body, n}
+			hs.ServeHTTP(w, rq)
+		}))
+		u, _ := url.Parse(ts.URL)
+		ch := &httpgrpc.Channel{Transport: piecesRT{&http.Transport{}, n}, BaseURL: u}
+		// sizes chosen so that large frames are followed by smaller large ones and by small ones
+		seq := []*hx.Msg{{Count: 1}, {}, {Payload: r.Bytes(9000)}, {Payload: r.Bytes(5000)}, {Payload: r.Bytes(4200)}, {Count: 6, Payload: r.Bytes(300)}, {}, {Count: 8}}
+		for _, kind := range []string{"BD", "CS"} {
+			got, err := halfDuplex(ch, kind, seq)
+			ok := err == nil
+			if kind == "BD" {
+				ok = ok && len(got) == len(seq)
+				for i := 0; ok && i < len(seq); i++ {
+					ok = proto.Equal(seq[i], got[i])
+				}
+			} else {
+				ok = ok && len(got) == 1 && int(got[0].Count) == len(seq) && proto.Equal(&hx.Msg{Payload: got[0].Payload}, &hx.Msg{Payload: seq[len(seq)-1].Payload})
+			}
+			*id++
+			d := map[string]interface{}{"transport": "httpgrpc", "kind": kind, "bytes_per_read_at_most": n, "messages": len(seq), "received": len(got), "error": fmt.Sprint(err)}
+			if !ok {
+				o.Violate("the same well-formed bytes delivered in small pieces did not decode to the messages sent", d, len(got), len(seq))
+			}
+			goChecked(o, "fragmented_"+kind, *id, ok, d)
+		}
+		out := &hx.Msg{}
+		in := &hx.Msg{Count: 5, Payload: r.Bytes(6000)}
+		err := ch.Invoke(context.Background(), "/verif.Svc/U", in, out)
+		*id++
+		goChecked(o, "fragmented_unary", *id, err == nil && proto.Equal(in, out), map[string]interface{}{"transport": "httpgrpc", "kind": "unary", "bytes_per_read_at_most": n, "error": fmt.Sprint(err)})
+		ts.Close()
+	}
+	// whole reads, large frames followed by smaller large frames (buffer reuse in a decoder must not run past a frame)
+	for _, t := range bothTransports(echoSvc()) {
+		seq := []*hx.Msg{{Payload: r.Bytes(20000)}, {Payload: r.Bytes(9000)}, {Payload: r.Bytes(5000)}, {Payload: r.Bytes(4100)}, {Payload: r.Bytes(100)}, {Count: 9}}
+		got, err := halfDuplex(t.ch, "BD", seq)
+		ok := err == nil && len(got) == len(seq)
+		for i := 0; ok && i < len(seq); i++ {
+			ok = proto.Equal(seq[i], got[i])
+		}
+		*id++
+		d := map[string]interface{}{"transport": t.name, "kind": "BD", "sizes": "20000, 9000, 5000, 4100, 100, small", "received": len(got), "error": fmt.Sprint(err)}
+		if !ok {
+			o.Violate("shrinking large messages were not delivered as sent", d, len(got), len(seq))
+		}
+		goChecked(o, "shrinking_"+t.name, *id, ok, d)
+		t.stop()
 	}
 }
 
